@@ -85,20 +85,33 @@ def classify (e : Err α) : Class α :=
 inductive Plan (α : Type) where
   | retry (excluded : List α)   -- bully election among the non-excluded key holders, then `start` with `excluded`
   | waitStart                    -- left out of the subset: wait `TssTimeout` for a start message from anyone
-  | giveUp                       -- the session ends with the error
+  | giveUp (err : Err α)         -- the session ends, `Execute` returns `err`
 deriving Repr, DecidableEq
 
-def plan : Class α → Plan α
+/-- what `handleError` does for a classified cause of the error `e` it was given -/
+def plan (e : Err α) : Class α → Plan α
   | .coord p => .retry p.toList
   | .comm => .retry []
   | .tss cs true => .retry cs
-  | .tss _ false => .giveUp      -- `PeersFromParties` failed: that error is returned
+  | .tss _ false => .giveUp .other   -- `PeersFromParties` failed: ITS (untyped) error is returned
   | .subset => .waitStart
-  | .unknown => .giveUp
+  | .unknown => .giveUp e            -- unrecognised: the error itself is returned
 
 /-- `Execute` after the first attempt failed with `e` -/
 def afterFailure (retryable : Bool) (e : Err α) : Plan α :=
-  if retryable then plan (classify e) else .giveUp
+  if retryable then plan e (classify e) else .giveUp e
+
+/-- the six kinds of tss processes and what their `Retryable()` answers (regenerated fact: Oblig/C11 `gen_retryable`) -/
+inductive Kind where
+  | ecdsaKeygen | ecdsaSigning | ecdsaResharing | frostKeygen | frostSigning | frostResharing
+deriving DecidableEq, Repr
+
+def Kind.isSigning : Kind → Bool
+  | .ecdsaSigning => true
+  | .frostSigning => true
+  | _ => false
+
+def retryableOf (k : Kind) : Bool := k.isSigning
 
 /-! ### the intended classification (specification): the typed leaves decide -/
 
@@ -163,10 +176,10 @@ def bullyElectedListed (key : α → Nat) (self : α) (candidates : List α) (cl
 
 /-- what the relayer does after the failure, as far as a scenario can observe it -/
 inductive Outcome (α : Type) where
-  | ended                    -- the session ends with an error
+  | ended (err : Err α)      -- the session ends; `Execute` returns `err`
   | idle                     -- waits for a start message; none came
   | follows (c : α)          -- answers `c`'s initiate with ready and runs the process with `c`'s start params
-  | announces (S : List α)   -- coordinates the new attempt itself and announces the subset `S`
+  | announces (n : Nat) (S : List α) -- coordinates the new attempt itself; announces `S` after `n` ready messages
   | neverReady               -- coordinates the new attempt itself; the ready messages ran out before `Ready`
 deriving Repr, DecidableEq
 
@@ -181,7 +194,7 @@ deriving Repr, DecidableEq
 def secondAttempt (elect : (α → Nat) → α → List α → Option α → α) (key : α → Nat) (self : α) (t : Nat)
     (holders : List α) (e : Err α) (retryable : Bool) (claimant : Option α) (arrivals : List α) : Second α :=
   match afterFailure retryable e with
-  | .giveUp => ⟨none, .ended⟩
+  | .giveUp err => ⟨none, .ended err⟩
   | .waitStart => ⟨none, match claimant with | some r => .follows r | none => .idle⟩
   | .retry ex =>
     let cands := nextCandidates holders ex
@@ -189,55 +202,9 @@ def secondAttempt (elect : (α → Nat) → α → List α → Option α → α)
     ⟨some (sortDesc key cands),
       if elected = self then
         match initiate key ⟨self, holders, t, ex⟩ arrivals with
-        | some (_, S) => .announces S
+        | some (n, S) => .announces n S
         | none => .neverReady
       else .follows elected⟩
-
-/-! ### time-outs of a waiting relayer -/
-
-/-- a silence: longer than `CoordinatorTimeout` but shorter than `TssTimeout`, or longer than `TssTimeout`
-    (the configuration keeps CoordinatorTimeout < TssTimeout: 3 min vs 15 min) -/
-inductive Quiet where
-  | coord | tss
-deriving DecidableEq, Repr
-
-/-- what a waiting relayer experiences: a message, or a silence (nothing that resets its ticker) of some length -/
-inductive TEv (α : Type) where
-  | msg (e : Ev α)
-  | quiet (q : Quiet)
-deriving DecidableEq, Repr
-
-/-- does a silence of length `q` exhaust a wait whose ticker was created with the time-out `limit` -/
-def expires : Quiet → Quiet → Bool
-  | .coord, _ => true
-  | .tss, .tss => true
-  | .tss, .coord => false
-
-structure TSt (α : Type) where
-  w        : WSt α
-  timedOut : Bool       -- waitForStart returned CoordinatorError / watchExecution returned its time-out error
-deriving Repr
-
-/-- `waitForStart(…, cw, limit)` next to `watchExecution(…, cf)` (whose ticker is always `TssTimeout`) -/
-def stepTimed (cw cf : Option α) (limit : Quiet) (s : TSt α) : TEv α → TSt α
-  | .msg e => if s.timedOut then s else { s with w := stepWait2 cw cf s.w e }
-  | .quiet q =>
-    if s.timedOut then s else
-    match s.w.phase with
-    | .waiting => if expires limit q || expires .tss q then { s with timedOut := true } else s
-    | .running => if expires .tss q then { s with timedOut := true } else s
-    | .finished _ => s
-
-def runTimed (cw cf : Option α) (limit : Quiet) (tr : List (TEv α)) : TSt α :=
-  tr.foldl (stepTimed cw cf limit) ⟨initW, false⟩
-
-/-- the relayer left out of the subset: `handleError` waits with `TssTimeout`, knowing no coordinator -/
-def runLeftOut (tr : List (TEv α)) : TSt α := runTimed none none .tss tr
-
-def msgsOf : List (TEv α) → List (Ev α)
-  | [] => []
-  | .msg e :: es => e :: msgsOf es
-  | .quiet _ :: es => msgsOf es
 
 /-! ### the coordinator time-out with a clock: which messages re-arm it -/
 
@@ -274,6 +241,122 @@ def ticksOf : List (CEv α) → Nat
   | [] => 0
   | .tick :: es => ticksOf es + 1
   | .msg _ :: es => ticksOf es
+
+def msgsOfC : List (CEv α) → List (Ev α)
+  | [] => []
+  | .msg e :: es => e :: msgsOfC es
+  | .tick :: es => msgsOfC es
+
+/-! ### the relayer left out of the subset, with a clock -/
+
+structure LSt (α : Type) where
+  w        : WSt α
+  sinceArm : Nat     -- time units since waitForStart's ticker (period TssTimeout) was re-armed by an initiate message
+  total    : Nat     -- time units since handleError started its fail watcher, whose TssTimeout ticker is NEVER re-armed
+  timedOut : Bool
+deriving Repr
+
+/-- `handleError`'s SubsetError case: `waitForStart(…, "", TssTimeout)` next to `watchExecution(…, "")`. Time adds up:
+    the watcher's ticker runs from the start and is never reset, so the wait ends `tssLimit` units after it began no
+    matter how the silence is distributed; CoordinatorTimeout plays no role. -/
+def stepLeftOut (tssLimit : Nat) (s : LSt α) : CEv α → LSt α
+  | .tick =>
+    if s.timedOut then s else
+    match s.w.phase with
+    | .finished _ => s
+    | .waiting =>
+      if tssLimit ≤ s.total + 1 || tssLimit ≤ s.sinceArm + 1 then { s with timedOut := true }
+      else { s with total := s.total + 1, sinceArm := s.sinceArm + 1 }
+    | .running =>
+      if tssLimit ≤ s.total + 1 then { s with timedOut := true } else { s with total := s.total + 1 }
+  | .msg e =>
+    if s.timedOut then s else
+    { s with w := stepWait2 none none s.w e,
+             sinceArm := match e, s.w.phase with
+               | .init _, .waiting => 0     -- with the empty coordinator id every initiate message is accepted
+               | _, _ => s.sinceArm }
+
+def runLeftOut (tssLimit : Nat) (tr : List (CEv α)) : LSt α :=
+  tr.foldl (stepLeftOut tssLimit) ⟨initW, 0, 0, false⟩
+
+/-! ### what a scenario observes of the second attempt, and C11 as a predicate on it -/
+
+/-- how the harness renders the error `Execute` returned (errors.As in the order coordinator, subset, communication,
+    tss; anything else `other`) -/
+inductive Res11 (α : Type) where
+  | ok | coord (p : Option α) | subset | comm | tss | other | panic
+deriving DecidableEq, Repr
+
+def renderErr (e : Err α) : Res11 α :=
+  match findCoord e with
+  | some p => .coord p
+  | none => if findSubset e then .subset else if findComm e then .comm else if (findTss e).isSome then .tss else .other
+
+structure Seen (α : Type) where
+  election : Option (List α)   -- peers of the relayer's own Select broadcast = the candidates, in election order
+  readyTo  : List α            -- targets of the ready messages it sent
+  consumed : Nat               -- ready messages it took as coordinator
+  start    : Option (List α)   -- the subset it announced
+  crun     : Option (List α)   -- the subset of its coordinator Run
+  wrun     : Bool              -- it ran the process as a participant
+  res      : Res11 α
+deriving DecidableEq, Repr
+
+/-- the observation the model predicts -/
+def seenOf (arrivals : List α) (s : Second α) : Seen α :=
+  match s.outcome with
+  | .ended err => ⟨s.election, [], 0, none, none, false, renderErr err⟩
+  | .idle => ⟨s.election, [], 0, none, none, false, .ok⟩
+  | .follows c => ⟨s.election, [c], 0, none, none, true, .ok⟩
+  | .announces n S => ⟨s.election, [], n, some S, some S, false, .ok⟩
+  | .neverReady => ⟨s.election, [], arrivals.length, none, none, false, .ok⟩
+
+/-- the session ended with `err` and nothing else happened -/
+def EndedWith (err : Err α) (o : Seen α) : Prop :=
+  o.election = none ∧ o.readyTo = [] ∧ o.start = none ∧ o.crun = none ∧ o.wrun = false ∧ o.res = renderErr err
+
+/-- **C11 as a decidable predicate on ANY observation** `o` of a relayer whose attempt failed with error `e` of
+    unambiguous cause `k`: `coordinates` says whether the (intended) re-election makes this relayer the coordinator of
+    the new attempt; `claimant` is the peer that announces itself / sends the replacement start, if any. -/
+def P11 (self : α) (holders : List α) (t : Nat) (e : Err α) (k : Class α) (retryable coordinates : Bool)
+    (claimant : Option α) (arrivals : List α) (o : Seen α) : Prop :=
+  if retryable = false then EndedWith e o else
+  match k with
+  | .unknown => EndedWith e o                      -- ends with that error
+  | .tss _ false => EndedWith .other o             -- (excluded point: undecodable culprit; the decode error is returned)
+  | .subset =>                                     -- left out: no election, waits for the replacement start
+    o.election = none ∧ o.start = none ∧ o.crun = none ∧ o.res = .ok ∧
+    (match claimant with
+      | some r => o.wrun = true ∧ o.readyTo = [r]
+      | none => o.wrun = false ∧ o.readyTo = [])
+  | _ =>                                           -- retried without the culprits
+    let K := culprits k
+    (∃ cs, o.election = some cs ∧ ∀ c ∈ cs, c ∈ holders ∧ c ∉ K) ∧
+    (∀ c ∈ o.readyTo, c ∉ K) ∧
+    o.crun = o.start ∧
+    (match o.start with | some S => ∀ c ∈ S, c ∉ K | none => True) ∧
+    (coordinates = true → o.consumed ≤ arrivals.length ∧
+      AnnouncedOk ⟨self, holders, t, K⟩ (arrivals.take o.consumed) arrivals o.start) ∧
+    o.res = .ok
+
+instance (err : Err α) (o : Seen α) : Decidable (EndedWith err o) := by unfold EndedWith; infer_instance
+
+instance (self : α) (holders : List α) (t : Nat) (e : Err α) (k : Class α) (retryable coordinates : Bool)
+    (claimant : Option α) (arrivals : List α) (o : Seen α) :
+    Decidable (P11 self holders t e k retryable coordinates claimant arrivals o) := by
+  unfold P11
+  split
+  · infer_instance
+  · split
+    · infer_instance
+    · infer_instance
+    · cases claimant <;> infer_instance
+    · have : Decidable (∃ cs, o.election = some cs ∧ ∀ c ∈ cs, c ∈ holders ∧ c ∉ culprits k) := by
+        cases h : o.election with
+        | none => exact isFalse (by simp)
+        | some cs =>
+          exact decidable_of_iff (∀ c ∈ cs, c ∈ holders ∧ c ∉ culprits k) (by simp)
+      cases o.start <;> infer_instance
 
 /-! ### the code as found (before the repair), kept to state the defect -/
 
